@@ -276,13 +276,23 @@ def cycle_kind(system):
     return 'through bindings'
 
 
+def aliasing(system):
+    """Does the most general unifier bind a variable to another variable (variable-variable aliasing)?"""
+    r, s = U.ref_unify(system)
+    return r == 'ok' and any(v[0] == 'v' for v in s.values())
+
+
 def quoted_alias(case):
-    """Does the pair contain the same atom or functor once with and once without quotes ('a' vs a)?"""
+    """Does the pair contain the same text once with and once without quotes ('a' vs a, '1' vs 1)?"""
     names = set()
     for t in (case["t1"], case["t2"]):
         for s in U.subterms(t):
             if s[0] in ('a', 'c'):
                 names.add(s[1])
+            elif s[0] == 'i':
+                names.add(str(s[1]))
+            elif s[0] == 'f':
+                names.add(repr(float(s[1])))
     return any(n != U.atom_key(n) and U.atom_key(n) in names for n in names)
 
 
@@ -304,7 +314,8 @@ def attribute(runner, case, verdict):
         if v2 is not None:
             case, verdict = alt, v2
     src, qt, system, outs = P.build(case)
-    sig = {"kind": verdict[0], "cycle": cycle_kind(system), "quoted_alias": quoted_alias(case)}
+    sig = {"kind": verdict[0], "cycle": cycle_kind(system), "quoted_alias": quoted_alias(case),
+           "aliasing": aliasing(system)}
     if case["mode"] == "fact":
         sig["site"] = "top-level query only (same call from a clause body is right)"
     else:
@@ -562,7 +573,10 @@ def run(ctx):
                 if mode == "fact":
                     c["spread"] = True
                 cases.append(c)
-        ctx.count("crafted", 4 * len(crafted))
+        # Term.signature strips quotes: the quoted atom '1' and the integer 1 (only as =/2 and \\=/2)
+        for mode in ("eq", "neq"):
+            cases.append({"mode": mode, "t1": ('a', "'1'"), "t2": ('i', 1)})
+        ctx.count("crafted", 4 * len(crafted) + 2)
 
     # ------------------------------------------------------------------ the real engine, recorded
     rec = Recorder(ctx.budget(4000, 40000))
